@@ -1,7 +1,206 @@
 /-
   Helper lemmas for C05: invariants of the executor transition system (safety part).
+  Definitions and generic lemmas: TB.Lemmas.ExecBase; preservation: TB.Lemmas.ExecInv;
+  `balanceRef`: TB.Lemmas.ExecBal. This file derives the consequences used by TB.Props.C05.
 -/
 import TB.Spec.ExecSpec
+import TB.Lemmas.ExecBase
+import TB.Lemmas.ExecInv
+import TB.Lemmas.ExecBal
 namespace TB.Exec
+
+variable {bal : Bal} {qs0 : List (List Nat)} {s : ExSt}
+
+theorem holdsS_of_mayHold_ne {a h j : Nat} {pc : Pc} (hm : mayHold a h pc j) (hne : h ≠ j) :
+    holdsS pc = true := by
+  cases pc <;> first | rfl | exact hm.elim | exact absurd hm.symm hne
+
+theorem popped_of_mayHold_not_holdsS {a h j : Nat} {pc : Pc} (hm : mayHold a h pc j)
+    (hn : holdsS pc = false) : ∃ item, pc = .popped item := by
+  cases pc <;> first | exact ⟨_, rfl⟩ | exact hm.elim | cases hn
+
+/-- lock discipline -/
+theorem Inv.lockorder (hinv : Inv qs0 s) (j holder : Nat) (hj : s.qlock[j]? = some (some holder))
+    (hne : holder ≠ j) : s.stateLock = some holder := by
+  obtain ⟨pc, hpc, hm⟩ := hinv.qHold j holder hj
+  exact (hinv.wrk holder pc hpc).hs (holdsS_of_mayHold_ne hm hne)
+
+theorem allDone_iff : allDone s = true ↔ ∀ (i : Nat) (pc : Pc), s.pcs[i]? = some pc → pc = Pc.done := by
+  simp only [allDone, List.all_eq_true, beq_iff_eq]
+  constructor
+  · intro h i pc hi
+    exact h pc (List.mem_of_getElem? hi)
+  · intro h pc hpc
+    obtain ⟨i, hi, rfl⟩ := List.getElem_of_mem hpc
+    exact h i _ (List.getElem?_eq_getElem hi)
+
+/-- the final state -/
+theorem Inv.final (hinv : Inv qs0 s) (hd : allDone s = true) :
+    List.Perm s.solved qs0.flatten ∧ s.queues.flatten = [] ∧ s.stateLock = none ∧
+      ∀ (j h' : Nat), s.qlock[j]? ≠ some (some h') := by
+  rw [allDone_iff] at hd
+  have hact : s.active = 0 := by
+    cases h0 : s.pcs[0]? with
+    | none =>
+      have := hinv.actLe
+      have hl : s.pcs.length ≤ 0 := List.getElem?_eq_none_iff.1 h0
+      omega
+    | some pc =>
+      have := hd 0 pc h0
+      subst this
+      have := (hinv.wrk 0 _ h0).ex rfl
+      omega
+  have hq : s.queues.flatten = [] :=
+    flatten_eq_nil_of_forall _ (fun j => hinv.tail j (by omega))
+  have hh : inHand s = [] := by
+    rw [inHand_eq, List.filterMap_eq_nil_iff]
+    intro a ha
+    obtain ⟨i, hi, rfl⟩ := List.getElem_of_mem ha
+    rw [hd i _ (List.getElem?_eq_getElem hi)]; rfl
+  refine ⟨?_, hq, ?_, ?_⟩
+  · have := hinv.cons
+    rw [hq, hh] at this
+    simpa using this
+  · cases hst : s.stateLock with
+    | none => rfl
+    | some h =>
+      obtain ⟨pc, hpc, hh⟩ := hinv.sHeld h hst
+      rw [hd h pc hpc] at hh
+      cases hh
+  · intro j h' hj
+    obtain ⟨pc, hpc, hm⟩ := hinv.qHold j h' hj
+    rw [hd h' pc hpc] at hm
+    exact hm
+
+/-! ### deadlock freedom -/
+
+theorem step_exists {i : Nat} (h : (step bal s i).isSome = true) : ∃ i s', step bal s i = some s' :=
+  ⟨i, Option.isSome_iff_exists.1 h⟩
+
+theorem step_of_qlock_free {i : Nat} (hpc : s.pcs[i]? = some .wantLocal) (hq : s.qlock[i]? = some none) :
+    (step bal s i).isSome = true := by
+  simp [step, hpc, hq]
+
+theorem not_mem_take_of_nodup {l : List Nat} (hnd : l.Nodup) {k t : Nat} (hk : l[k]? = some t) :
+    t ∉ l.take k := by
+  intro hmem
+  obtain ⟨m, hm, hmt⟩ := List.getElem_of_mem hmem
+  rw [List.length_take] at hm
+  rw [List.getElem_take] at hmt
+  have hml : m < l.length := by omega
+  have : l[m]? = l[k]? := by rw [hk, List.getElem?_eq_getElem hml, hmt]
+  have := (List.getElem?_inj hml hnd).1 this
+  omega
+
+theorem others_nodup (i a : Nat) : (others i a).Nodup :=
+  List.Nodup.sublist List.filter_sublist List.nodup_range
+
+theorem mem_others_ne {i a j : Nat} (h : j ∈ others i a) : j ≠ i := by
+  simp only [others, List.mem_filter, List.mem_range] at h
+  simpa using h.2
+
+/-- a worker holding the state lock can move, or it waits for a queue owner that can -/
+theorem Inv.progress_of_holdsS (hinv : Inv qs0 s) {h : Nat} {pc : Pc} (hpc : s.pcs[h]? = some pc)
+    (hh : holdsS pc = true) : ∃ i s', step bal s i = some s' := by
+  have hst : s.stateLock = some h := (hinv.wrk h pc hpc).hs hh
+  cases pc with
+  | top => cases hh
+  | popped item => cases hh
+  | solving x => cases hh
+  | wantState => cases hh
+  | done => cases hh
+  | haveState => exact step_exists (i := h) (by simp only [step, hpc]; first | rfl | (split <;> rfl))
+  | exiting => exact step_exists (i := h) (by simp only [step, hpc]; first | rfl | (split <;> rfl))
+  | haveLocal => exact step_exists (i := h) (by simp only [step, hpc]; first | rfl | (split <;> rfl))
+  | cont1 => exact step_exists (i := h) (by simp only [step, hpc]; first | rfl | (split <;> rfl))
+  | cont2 => exact step_exists (i := h) (by simp only [step, hpc]; first | rfl | (split <;> rfl))
+  | bal => exact step_exists (i := h) (by simp only [step, hpc]; first | rfl | (split <;> rfl))
+  | dec d => exact step_exists (i := h) (by simp only [step, hpc]; first | rfl | (split <;> rfl))
+  | unlockState => exact step_exists (i := h) (by simp only [step, hpc]; first | rfl | (split <;> rfl))
+  | release k d =>
+    by_cases hk : k < s.active
+    · exact step_exists (i := h) (by simp only [step, hpc, hk, if_true]; first | rfl | (split <;> rfl))
+    · exact step_exists (i := h) (by simp only [step, hpc, hk, if_false]; first | rfl | (split <;> rfl))
+  | wantLocal =>
+    refine step_exists (i := h) ?_
+    have hl : h < s.qlock.length := by rw [hinv.lenL]; exact lt_of_getElem?_eq_some hpc
+    cases hv : s.qlock[h] with
+    | none => exact step_of_qlock_free hpc (by rw [List.getElem?_eq_getElem hl, hv])
+    | some x =>
+      exfalso
+      have hq : s.qlock[h]? = some (some x) := by rw [List.getElem?_eq_getElem hl, hv]
+      obtain ⟨pcx, hpcx, hm⟩ := hinv.qHold h x hq
+      by_cases hx : x = h
+      · subst hx
+        rw [hpc] at hpcx; cases hpcx
+        exact hm
+      · have := hinv.lockorder h x hq hx
+        rw [hst] at this
+        exact hx (Option.some.inj this).symm
+  | collect k =>
+    have hw := hinv.wrk h _ hpc
+    cases ht : (others h s.active)[k]? with
+    | none => exact step_exists (i := h) (by simp only [step, hpc, ht]; first | rfl | (split <;> rfl))
+    | some t =>
+      have htm : t ∈ others h s.active := List.mem_of_getElem? ht
+      have hta : t < s.active := mem_others_lt htm
+      have hl : t < s.qlock.length := by rw [hinv.lenL]; exact Nat.lt_of_lt_of_le hta hinv.actLe
+      cases hv : s.qlock[t] with
+      | none =>
+        have hq : s.qlock[t]? = some none := by rw [List.getElem?_eq_getElem hl, hv]
+        exact step_exists (i := h) (by simp only [step, hpc, ht, hq, beq_self_eq_true, if_true]; first | rfl | (split <;> rfl))
+      | some x =>
+        have hq : s.qlock[t]? = some (some x) := by rw [List.getElem?_eq_getElem hl, hv]
+        obtain ⟨pcx, hpcx, hm⟩ := hinv.qHold t x hq
+        by_cases hx : x = h
+        · exfalso
+          subst hx
+          rw [hpc] at hpcx; cases hpcx
+          rcases hm with hm | hm
+          · exact mem_others_ne htm hm
+          · exact not_mem_take_of_nodup (others_nodup _ _) ht hm
+        · obtain ⟨item, rfl⟩ := popped_of_mayHold_not_holdsS hm (hinv.other_not_holdsS hst hx hpcx)
+          exact step_exists (i := x) (by simp only [step, hpcx]; first | rfl | (split <;> rfl))
+
+/-- no deadlock -/
+theorem Inv.deadlock_free (hinv : Inv qs0 s) (hnd : allDone s = false) :
+    ∃ i s', step bal s i = some s' := by
+  have : ∃ (i : Nat) (pc : Pc), s.pcs[i]? = some pc ∧ pc ≠ Pc.done := by
+    apply Classical.byContradiction
+    intro hc
+    have : allDone s = true := by
+      rw [allDone_iff]
+      intro i pc hi
+      apply Classical.byContradiction
+      intro hne
+      exact hc ⟨i, pc, hi, hne⟩
+    rw [this] at hnd; cases hnd
+  obtain ⟨i, pc, hpc, hne⟩ := this
+  cases hh : holdsS pc with
+  | true => exact hinv.progress_of_holdsS hpc hh
+  | false =>
+    cases pc with
+    | top =>
+      exact step_exists (i := i) (by simp only [step, hpc]; split <;> rfl)
+    | popped item => exact step_exists (i := i) (by simp only [step, hpc]; first | rfl | (split <;> rfl))
+    | solving x => exact step_exists (i := i) (by simp only [step, hpc]; first | rfl | (split <;> rfl))
+    | done => exact absurd rfl hne
+    | wantState =>
+      cases hst : s.stateLock with
+      | none => exact step_exists (i := i) (by simp only [step, hpc, hst, Option.isNone_none, if_true]; first | rfl | (split <;> rfl))
+      | some h =>
+        obtain ⟨pch, hpch, hhh⟩ := hinv.sHeld h hst
+        exact hinv.progress_of_holdsS hpch hhh
+    | haveState => cases hh
+    | exiting => cases hh
+    | wantLocal => cases hh
+    | haveLocal => cases hh
+    | cont1 => cases hh
+    | cont2 => cases hh
+    | collect k => cases hh
+    | bal => cases hh
+    | release k d => cases hh
+    | dec d => cases hh
+    | unlockState => cases hh
 
 end TB.Exec
